@@ -12,6 +12,9 @@ var Registry = map[string]func(p *load.Prog, r *oblig.Run){
 	"C03": C03,
 	"C04": C04,
 	"C06": C06,
+	"C07": C07,
+	"C08": C08,
+	"C09": C09,
 	"C14": C14,
 	"C15": C15,
 }
